@@ -678,3 +678,12 @@ func WalkText(n *xhtml.Node) []string {
 	w.visit(n)
 	return w.out
 }
+
+// Base85Group violates R5.16: five digits do not fit the accumulator.
+func Base85Group(digits [5]byte) [4]byte {
+	v := uint32(0)
+	for _, d := range digits {
+		v = v*85 + uint32(d)
+	}
+	return [4]byte{byte(v >> 24), byte(v >> 16), byte(v >> 8), byte(v)}
+}
